@@ -120,7 +120,8 @@ class Generator:
                 "p_dependent": r.choice([0.5, 0.7, 0.7, 0.9]),
                 "p_reuse": r.choice([0.3, 0.5, 0.7, 0.95]),
                 "alias_bias": r.choice([0.5, 0.8, 0.95]),
-                "big_fitter": r.random() < (0.05 if self.tier == "quick" else 0.25),
+                "big_fitter": r.random() < (0.02 if self.tier == "quick" else 0.15),
+                "fst5": r.random() < (0.25 if self.tier == "quick" else 0.5),
                 "groups": groups}
 
     def draw_dt(self):
@@ -344,13 +345,11 @@ class Generator:
     def _fam_tomo(self, ex, pre):
         r = self.rng
         n = self._n()
-        if n >= 5 and not self.cfg["big_fitter"] and r.random() < 0.8:
-            n = min(self.cfg["ns"]) if min(self.cfg["ns"]) < 5 else r.choice([2, 3])
+        fst_max = 6 if self.cfg["big_fitter"] else (5 if self.cfg.get("fst5") else 4)   # FST fitter: 0.6 s at n=5, 4.5 s at n=6
         which = r.random()
         # -- fitters on circuits produced earlier
         if which < 0.3:
-            c = self._slots(ex, lambda m: m["tag"] == "qc" and m.get("op") == "tomo.stabilizer_measurement_circuit"
-                            and (m["info"].get("nm", 9) <= 4 or self.cfg["big_fitter"]))
+            c = self._slots(ex, lambda m: m["tag"] == "qc" and m.get("op") == "tomo.stabilizer_measurement_circuit")
             if c:
                 sid = r.choice(c)
                 nbits = ex.meta[sid]["info"].get("nc", n)
@@ -366,7 +365,7 @@ class Generator:
                                   [self.ref(f["id"])], [["full_hilbert_space", full]])
         if which < 0.5:
             c = self._slots(ex, lambda m: m["tag"] == "list[qc]" and m.get("op") == "tomo.full_state_tomography_circuits"
-                            and (m["info"].get("nm", 9) <= 3 or self.cfg["big_fitter"]))
+                            and m["info"].get("nm", 9) <= fst_max)
             if c:
                 sid = r.choice(c)
                 info = ex.meta[sid]["info"]
@@ -837,7 +836,7 @@ class Generator:
                                          "graph.copy", "graph.compress", "graph.get_edges"]), [me])]
         if tag == "list[qc]" and m.get("op") == "tomo.full_state_tomography_circuits":
             nbits, ncirc = info.get("nc", n), info.get("len", 5)
-            if info.get("nm", 9) > 4 and not self.cfg["big_fitter"]:
+            if info.get("nm", 9) > (6 if self.cfg["big_fitter"] else (5 if self.cfg.get("fst5") else 4)):
                 return []
             res = self.lit(Lt.fake_result([self._counts(nbits, 2) for _ in range(ncirc)]))
             return [self._call("tomo.fst_density_matrix", [res, me, self.lit(r.random() < 0.5)])]
@@ -903,7 +902,10 @@ class Generator:
             return steps
         return steps + [self._after_call(steps[-1])]
 
-    def _after_call(self, call):
+    def _after_call(self, call, rounds=1):
+        """deferred: disturb the result of `call`, ask again with the same arguments, question the receivers;
+        with rounds > 1 the next round works on the RE-ISSUED call's result (a first call may be a cache miss
+        that returns a private object while the second one returns the shared one)"""
         def after(ex2, call=call):
             sid = call["id"]
             m = ex2.meta.get(sid)
@@ -914,7 +916,8 @@ class Generator:
                 # repeat the op, question the receiver again
                 again = dict(call)
                 again["id"] = self._id()
-                return receiver_queries(ex2) + [again] + receiver_queries(ex2)
+                more = [self._after_call(again, rounds - 1)] if rounds > 1 else []
+                return receiver_queries(ex2) + [again] + receiver_queries(ex2) + more
             out = []
             for _ in range(r.choice([1, 1, 2])):
                 path, kind, hint = r.choice(cands)
@@ -925,7 +928,8 @@ class Generator:
             again = dict(call)
             again["id"] = self._id()
             out.append(again)
-            return out + receiver_queries(ex2)
+            more = [self._after_call(again, rounds - 1)] if rounds > 1 else []
+            return out + receiver_queries(ex2) + more
 
         def receiver_queries(ex2):
             # an op with a live receiver / object argument: ask the object something else afterwards
@@ -948,15 +952,15 @@ class Generator:
             self.cfg["p_reuse"] = 0.9      # work on few objects: memo-invalidation needs query / change / query on ONE object
         n = (self._job or {}).get("n")
         if n:
-            if fam == "tomo" and not self.cfg["big_fitter"]:
-                n = min(n, 3)
+            if fam == "tomo" and ("FST" in opname or "fst" in opname or "full_state" in opname):
+                n = min(n, 6 if self.cfg["big_fitter"] else (5 if self.cfg.get("fst5") else 4))
             if fam == "layer":
                 n = min(n, 5)
             self.cfg["ns"] = [n]
             self.cfg["conns"] = {n: self.rng.sample(VALID[n], min(len(VALID[n]), self.rng.choice([1, 2])))}
             self.cfg["groups"] = {n: [Lt.random_group(self.rng, n) for _ in range(self.rng.choice([1, 2, 3]))]}
-        if fam == "tomo" and not self.cfg["big_fitter"]:
-            ns = [n for n in self.cfg["ns"] if n <= 3] or [self.rng.choice([2, 3])]
+        if fam == "tomo" and not n and not self.cfg["big_fitter"]:
+            ns = [n for n in self.cfg["ns"] if n <= 4] or [self.rng.choice([2, 3])]
             self.cfg["ns"] = ns
             for n in ns:
                 self.cfg["conns"].setdefault(n, [self.rng.choice(VALID[n])])
@@ -982,7 +986,7 @@ class Generator:
                         if "ref" in A and not A.get("path") and A["ref"] in ex2.meta:
                             out += self.gen_consumers(ex2, A["ref"], 3)
                     return out
-                return steps[:k] + [pre_queries] + steps[k:] + [self._after_call(call), self._after_call(call)]
+                return steps[:k] + [pre_queries] + steps[k:] + [self._after_call(call, rounds=3)]
             self.script_note = "unreachable"
             return []
         self.queue.append(target)
